@@ -18,6 +18,7 @@
 //! [pairing heap]: https://en.wikipedia.org/wiki/Pairing_heap
 
 use core::{
+    cell::UnsafeCell,
     marker::PhantomPinned,
     mem,
     ops::{Deref, DerefMut, Drop},
@@ -55,7 +56,12 @@ pub struct HeapNode<T> {
     /// The first child. `None` if there are no children.
     first_child: Option<NonNull<HeapNode<T>>>,
     /// The data which is associated to this heap item.
-    data: T,
+    ///
+    /// A registered node is written by whoever holds the lock of the timer.
+    /// The `UnsafeCell` hides the niches of `T`, so that a type which wraps
+    /// the future that embeds this node (e.g. `Option<Future>`) cannot store
+    /// its discriminant inside bytes which are written by other threads.
+    data: UnsafeCell<T>,
     /// Prevents `HeapNode`s from being `Unpin`. They may never be moved, since
     /// the heap semantics require addresses to be stable.
     _pin: PhantomPinned,
@@ -69,7 +75,7 @@ impl<T> HeapNode<T> {
             prev: None,
             next: None,
             first_child: None,
-            data,
+            data: UnsafeCell::new(data),
             _pin: PhantomPinned,
         }
     }
@@ -89,13 +95,15 @@ impl<T> Deref for HeapNode<T> {
     type Target = T;
 
     fn deref(&self) -> &T {
-        &self.data
+        // Safety: Shared access to the node is only handed out by the owner
+        // of the node or while the lock of the heap is held
+        unsafe { &*self.data.get() }
     }
 }
 
 impl<T> DerefMut for HeapNode<T> {
     fn deref_mut(&mut self) -> &mut T {
-        &mut self.data
+        self.data.get_mut()
     }
 }
 
@@ -105,7 +113,7 @@ unsafe fn add_child<T: Ord>(
     mut child: NonNull<HeapNode<T>>,
 ) {
     // require parent <= child
-    debug_assert!(!safe_lesser(&child.as_ref().data, &parent.as_ref().data));
+    debug_assert!(!safe_lesser(&**child.as_ref(), &**parent.as_ref()));
     if let Some(mut old_first_child) = parent.as_mut().first_child.take() {
         child.as_mut().next = Some(old_first_child);
         debug_assert_eq!(old_first_child.as_ref().prev, None);
@@ -123,7 +131,7 @@ unsafe fn meld<T: Ord>(
     debug_assert!(left.as_ref().is_root());
     debug_assert!(right.as_ref().is_root());
     // The lesser node should become the root.
-    if safe_lesser(&left.as_ref().data, &right.as_ref().data) {
+    if safe_lesser(&**left.as_ref(), &**right.as_ref()) {
         add_child(left, right);
         left
     } else {
@@ -371,7 +379,7 @@ mod tests {
     ) {
         assert_eq!(node.parent, parent.map(NonNull::from));
         if let Some(p) = parent {
-            assert!(p.data <= node.data);
+            assert!(**p <= **node);
         }
         if let Some(prev) = node.prev {
             assert_eq!(prev.as_ref().next, Some(node.into()));
